@@ -239,7 +239,7 @@ def parse_gopher_menu(body: bytes):
             out.append({"info": True, "name": name, "target": ("none",), "type": t, "kind": None})
         else:
             out.append({"info": False, "name": name, "target": _gopher_target(t, sel, host, port), "type": t,
-                        "kind": _kind_of_type(t), "plus": plus})
+                        "kind": _kind_of_type(t), "plus": plus, "raw": sel})
     return out
 
 
@@ -282,7 +282,7 @@ def parse_gopherp_dir(body: bytes):
             out.append({"info": True, "name": nm, "target": ("none",), "type": t, "kind": None, "blocks": item})
         else:
             out.append({"info": False, "name": nm, "target": _gopher_target(t, sel, host, port), "type": t,
-                        "kind": _kind_of_type(t), "plus": plus, "blocks": item})
+                        "kind": _kind_of_type(t), "plus": plus, "blocks": item, "raw": sel})
     return out
 
 
@@ -389,10 +389,12 @@ def parse_http_listing(body: bytes):
         elif ev[0] == "start" and ev[1] == "a":
             href = dict(ev[2]).get("href") or ""
             cur["target"] = _url_target(_enc(href))
+            cur["raw"] = _enc(href)
             cur["info"] = False
         elif ev[0] == "start" and ev[1] == "form":
             href = dict(ev[2]).get("action") or ""
             cur["target"] = _url_target(_enc(href))
+            cur["raw"] = _enc(href)
             cur["search"] = True
         elif ev[0] == "start" and ev[1] == "tt":
             in_tt = True
@@ -427,6 +429,7 @@ def parse_wap_listing(body: bytes):
         if ev[0] == "start" and ev[1] == "a":
             href = dict(ev[2]).get("href") or ""
             cur["target"] = _url_target(_enc(href), wap=True)
+            cur["raw"] = _enc(href)
             cur["info"] = False
             # the access-key digit and blank before <a> are decoration
             cur["name"] = b""
@@ -437,16 +440,20 @@ def parse_wap_listing(body: bytes):
             in_anchor = True
         elif ev[0] == "end" and ev[1] == "anchor":
             in_anchor = False
+        elif ev[0] == "start" and ev[1] == "input":
+            # a search entry: `name<br/>` was already closed by its first <br/>; reopen it
+            if out and out[-1]["info"]:
+                cur = out.pop()
+                cur["info"] = False
+                cur["kind"] = "search"
+                cur["_second"] = True
         elif ev[0] == "start" and ev[1] == "go":
             href = dict(ev[2]).get("href") or ""
             cur["target"] = _url_target(_enc(href), wap=True)
+            cur["raw"] = _enc(href)
             cur["kind"] = "search"
             cur["info"] = False
         elif ev[0] == "start" and ev[1] == "br":
-            if cur.get("kind") == "search" and not cur.get("_second"):
-                # a search entry spans two <br/>: name<br/> input anchor <br/>
-                cur["_second"] = True
-                continue
             cur.pop("_second", None)
             out.append(cur)
             cur = {"info": True, "name": b"", "target": ("none",), "type": None, "kind": None}
@@ -483,7 +490,7 @@ def parse_gemtext_listing(body: bytes, spartan=False, footer=True):
             if not spartan and tgt[0] == "local" and tgt[1].startswith(b"/GEMINI-QUERY"):
                 tgt = ("local", tgt[1][len(b"/GEMINI-QUERY"):])
                 kind = "search"
-            out.append({"info": False, "name": m.group(3), "target": tgt, "type": None, "kind": kind})
+            out.append({"info": False, "name": m.group(3), "target": tgt, "type": None, "kind": kind, "raw": url})
         else:
             out.append({"info": True, "name": ln, "target": ("none",), "type": None, "kind": None})
     return out
